@@ -255,7 +255,11 @@ def run_property(modname, tier, seed, workers=None):
     code = 0
     for kid, what in known_lines:
         print("KNOWN-FINDING: property=%s %s (%s)" % (spec.id, what, kid))
+    printed = set()
     for path, v in violations:
+        if path in printed:
+            continue
+        printed.add(path)
         print("VIOLATION property=%s replay=%s" % (spec.id, path))
         print("  clause=%s sig=%s" % (v.get("clause"), json.dumps(v.get("sig"))))
         code = 1
